@@ -41,28 +41,26 @@ where
 {
     fn work(&mut self) -> Result<BlockRet> {
         let mut o = self.dst.write_buf()?;
+        if o.is_empty() {
+            // A zero length read would look like the connection closing.
+            return Ok(BlockRet::WaitForStream(&self.dst, 1));
+        }
         let size = T::size();
-        let mut buffer = vec![0; o.len()];
-        // TODO: this read blocks.
+        // `self.buf` holds the bytes of a sample split across reads. Never read
+        // more than what, together with that, fits in the output window.
+        let mut buffer = vec![0; o.len() * size - self.buf.len()];
         let n = self.stream.read(&mut buffer[..])?;
         if n == 0 {
             warn!("TCP connection closed?");
             return Ok(BlockRet::EOF);
         }
-        let mut v = Vec::with_capacity(n / size + 1);
-
-        let mut steal = 0;
-        if !self.buf.is_empty() {
-            steal = size - self.buf.len();
-            self.buf.extend(&buffer[0..steal]);
-            v.push(T::parse(&self.buf)?);
-            self.buf.clear();
-        }
-        let remaining = (n - steal) % size;
-        for pos in (steal..(n - remaining)).step_by(size) {
-            v.push(T::parse(&buffer[pos..pos + size])?);
-        }
-        self.buf.extend(&buffer[n - remaining..n]);
+        self.buf.extend(&buffer[..n]);
+        let whole = self.buf.len() - self.buf.len() % size;
+        let v = self.buf[..whole]
+            .chunks_exact(size)
+            .map(T::parse)
+            .collect::<Result<Vec<_>>>()?;
+        self.buf.drain(..whole);
         let n = v.len();
         o.fill_from_iter(v);
         o.produce(n, &[]);
